@@ -24,7 +24,9 @@ namespace detail
 	template<typename T>
 	GLM_FUNC_QUALIFIER T mask(T Bits)
 	{
-		return Bits >= static_cast<T>(sizeof(T) * 8) ? ~static_cast<T>(0) : (static_cast<T>(1) << Bits) - static_cast<T>(1);
+		// (1 << Bits) - 1 is formed in the unsigned counterpart: for a signed type and Bits = width - 1 it overflows
+		typedef typename make_unsigned<T>::type UType;
+		return Bits >= static_cast<T>(sizeof(T) * 8) ? ~static_cast<T>(0) : static_cast<T>((static_cast<UType>(1) << Bits) - static_cast<UType>(1));
 	}
 
 	template<length_t L, typename T, qualifier Q, bool Aligned, bool EXEC>
